@@ -46,6 +46,8 @@ class _Rec:
         self.notes = []
         self.loops_on = False    # C09 (worklist tie): record the pending lists at the loop boundaries of run_to_completion
         self.loops = []          # boundary records since the last `take_loops()`
+        self.regnames = {}       # (flow uid, head uid) -> event name the head's match element named WHEN it was last registered
+        self.stmt_names = {}     # (flow id, position) -> set of event names heads were registered with at that statement
 
 
 REC = _Rec()
@@ -90,6 +92,26 @@ def name_at(state, flow_state, pos):
         return _ORIG["get_event_name_from_element"](state, flow_state, el)
     except Exception:  # noqa
         return "!raise"
+    finally:
+        REC.uid = saved
+
+
+def waited_name_at(state, flow_state, pos):
+    """The event name the match element at `pos` waits for NOW, the way the DISPATCHER sees it: an incoming event is compared
+    with `get_event_from_element(state, flow_state, element)` (`_compute_event_matching_score`), evaluated on the current
+    context — not with whatever name the index was given when the head was registered.  None if there is no match element,
+    '!raise' if the indexer's own name function raises (the head cannot be registered then); if only the full evaluation
+    raises (argument expressions), the name function's answer.  Side-effect free on the uid counter."""
+    nm = name_at(state, flow_state, pos)
+    if nm is None or nm == "!raise":
+        return nm
+    el = state.flow_configs[flow_state.flow_id].elements[pos]
+    saved = REC.uid
+    try:
+        ev = sm.get_event_from_element(state, flow_state, el)
+        return ev.name if isinstance(getattr(ev, "name", None), str) else nm
+    except Exception:  # noqa
+        return nm
     finally:
         REC.uid = saved
 
@@ -285,6 +307,16 @@ def install():
 
     orig_changed = statemachine._flow_head_changed
     orig_remove = statemachine._remove_head_from_event_matching_structures
+    orig_add_head = statemachine._add_head_to_event_matching_structures
+
+    def add_head(state, flow_state, head):
+        # what the element names at the moment of the registration (for the oracle: a wrong bucket is either wrong from the
+        # start, or the name changed while the head waited)
+        if REC.state is state:
+            nm = waited_name_at(state, flow_state, head.position)
+            REC.regnames[(flow_state.uid, head.uid)] = nm
+            REC.stmt_names.setdefault((flow_state.flow_id, head.position), set()).add(nm)
+        return orig_add_head(state, flow_state, head)
     orig_add_inst = statemachine.add_new_flow_instance
     orig_cleanup = statemachine._clean_up_state
     _ORIG.update(changed=orig_changed, remove=orig_remove, add_inst=orig_add_inst, cleanup=orig_cleanup)
@@ -376,6 +408,7 @@ def install():
     statemachine._advance_head_front = advance_head_front
     statemachine.log.warning = warning
     statemachine._flow_head_changed = flow_head_changed
+    statemachine._add_head_to_event_matching_structures = add_head
     statemachine._remove_head_from_event_matching_structures = remove_head
     statemachine.add_new_flow_instance = add_new_flow_instance
     statemachine._clean_up_state = clean_up_state
